@@ -290,6 +290,57 @@ static int c09_bufimg(toks_t *t)
   return 1;
 }
 
+
+/* llsusp <P> <Pt> <psv> <R> <nc> <w> <h> <kind> <seed> <rgb|ycc> <skind> <sseed> <split> : a lossless JPEG written by the real
+ * compressor (ll_compress of ops_c02.c) is decompressed through the suspending source (chunk sizes as in susp: 0 = two chunks cut
+ * at <split>, 1 = single bytes, 2 = 1..64, 3 = 1..2000 bytes); oracle: every sample equals (s >> Pt) << Pt, no warning, exactly as
+ * from memory */
+static int c09_llsusp(toks_t *t)
+{
+  int P = (int)tl(t, 1), Pt = (int)tl(t, 2), psv = (int)tl(t, 3), R = (int)tl(t, 4), nc = (int)tl(t, 5);
+  int w = (int)tl(t, 6), h = (int)tl(t, 7), kind = (int)tl(t, 8), ycc = !strcmp(t->tok[10], "ycc"), skind = (int)tl(t, 11), err = 0, y;
+  unsigned long long seed = (unsigned long long)tll(t, 9), sseed = (unsigned long long)tll(t, 12);
+  size_t n = (size_t)w * h * nc, i, split = (size_t)tll(t, 13);
+  unsigned short *img = (unsigned short *)malloc(n * 2 + 2), *dec = (unsigned short *)calloc(n + 1, 2);
+  unsigned char *out = NULL; unsigned long outsize = 0; char why[200] = "";
+  struct jpeg_decompress_struct d; my_err_t e; c09_src s; void *row = NULL; int created = 0;
+  memset(&s, 0, sizeof(s));
+  ll_image(img, P, nc, w, h, kind, seed);
+  if (!ll_compress(P, Pt, psv, R, nc, w, h, ycc, img, &out, &outsize, &err)) { printf("R err %d\n", err); goto done; }
+  d.err = my_err_init(&e);
+  jpeg_create_decompress(&d); created = 1;
+  if (setjmp(e.jb)) { printf("R ok\n"); printf("O fail llsusp: error %d while decompressing through a suspending source\n", e.code); goto done; }
+  c09_setup(&d, &s, out, outsize, skind, sseed, split % (outsize ? outsize : 1));
+#define LL_FEED if (!c09_feed(&s)) { snprintf(why, sizeof(why), "the decompressor asks for more input after all %lu bytes were delivered", outsize); break; }
+  while (jpeg_read_header(&d, TRUE) == JPEG_SUSPENDED) { LL_FEED }
+  if (!why[0]) {
+    d.out_color_space = d.jpeg_color_space;
+    while (!jpeg_start_decompress(&d)) { LL_FEED }
+  }
+  if (!why[0]) {
+    row = malloc((size_t)w * nc * 2 + 16);
+    while (d.output_scanline < d.output_height) {
+      JDIMENSION got; y = (int)d.output_scanline;
+      if (P <= 8) { JSAMPROW rp = (JSAMPROW)row; got = jpeg_read_scanlines(&d, &rp, 1); if (got) for (i = 0; i < (size_t)w * nc; i++) dec[(size_t)y * w * nc + i] = ((unsigned char *)row)[i]; }
+      else if (P <= 12) { J12SAMPROW rp = (J12SAMPROW)row; got = jpeg12_read_scanlines(&d, &rp, 1); if (got) for (i = 0; i < (size_t)w * nc; i++) dec[(size_t)y * w * nc + i] = (unsigned short)((short *)row)[i]; }
+      else { J16SAMPROW rp = (J16SAMPROW)(dec + (size_t)y * w * nc); got = jpeg16_read_scanlines(&d, &rp, 1); }
+      if (got == 0) { LL_FEED }
+    }
+  }
+  if (!why[0]) while (!jpeg_finish_decompress(&d)) { LL_FEED }
+  printf("R ok\n");
+  if (!why[0] && e.nwarn) snprintf(why, sizeof(why), "%d warnings (first code %d) through a suspending source", e.nwarn, e.warn[0]);
+  if (!why[0]) for (i = 0; i < n; i++) {
+    unsigned exp = ((unsigned)img[i] >> Pt) << Pt;
+    if (dec[i] != exp) { snprintf(why, sizeof(why), "sample %zu: got %u expected %u through a suspending source (%ld deliveries, chunk kind %d)", i, dec[i], exp, s.feeds, skind); break; }
+  }
+  if (why[0]) printf("O fail llsusp %s\n", why); else printf("O ok\n");
+done:
+  if (created) jpeg_destroy_decompress(&d);
+  free(s.buf); free(row); free(img); free(dec); free(out);
+  return 1;
+}
+
 /* ---- suspending destination ---- */
 typedef struct { struct jpeg_destination_mgr pub; unsigned char *buf; size_t size; unsigned char *out; size_t outn, outcap; int suspending; long suspensions; } c09_dst;
 static void c09d_init(j_compress_ptr c) { (void)c; }
@@ -376,6 +427,7 @@ static int dispatch_c09(toks_t *t)
 {
   if (!strcmp(t->tok[0], "msusp") && t->n >= 4) return c16_msusp(t);
   if (!strcmp(t->tok[0], "susp") && t->n >= 4) return c09_susp(t);
+  if (!strcmp(t->tok[0], "llsusp") && t->n >= 14) return c09_llsusp(t);
   if (!strcmp(t->tok[0], "suspall") && t->n >= 3) return c09_suspall(t);
   if (!strcmp(t->tok[0], "bufimg") && t->n >= 4) return c09_bufimg(t);
   if (!strcmp(t->tok[0], "suspenc") && t->n >= 11) return c09_suspenc(t);
